@@ -902,6 +902,15 @@ class Undefined:
     def __hash__(self) -> int:
         return id(type(self))
 
+    def __getstate__(self) -> tuple[t.Any, ...]:
+        # ``__slots__`` without ``__getstate__`` cannot be pickled with
+        # protocols 0 and 1.
+        return tuple(getattr(self, name) for name in Undefined.__slots__)
+
+    def __setstate__(self, state: tuple[t.Any, ...]) -> None:
+        for name, value in zip(Undefined.__slots__, state):
+            setattr(self, name, value)
+
     def __str__(self) -> str:
         return ""
 
